@@ -118,6 +118,11 @@ def stubSub (mime : List Char) (inline : Bool) (payload : List Char) : List Char
   let label := if stubLabels.any (fun l => l.toList == mime) then mime else ['?']
   '[' :: label ++ ['|', if inline then 'i' else '-', '|'] ++ payload ++ [']']
 
+/-- sub mode 2: a stub that also drops every backslash of the payload (`<\/script>` becomes `</script>`, `<!\--`
+    becomes `<!--`): its results regularly fail `rawTextEndsAtEnd` -/
+def stubSubDrop (mime : List Char) (inline : Bool) (payload : List Char) : List Char :=
+  stubSub mime inline (payload.filter (· != '\\'))
+
 /-- `model.c03.minify optsMask subMode ext tokens` -/
 def minifyOp : Handler := fun args => do
   let m ← argNat args 0
@@ -128,7 +133,7 @@ def minifyOp : Handler := fun args => do
     | [k, i, o] => .ok (bytesToChars k, bytesToChars i, bytesToChars o)
     | _ => .error "bad ext group")
   let toks ← toksG.mapM decodeTok
-  let sub : Verif.Model.Html.Sub := if subMode = 0 then none else some stubSub
+  let sub : Verif.Model.Html.Sub := if subMode = 0 then none else if subMode = 2 then some stubSubDrop else some stubSub
   match Verif.Model.Html.htmlMinify (optsOf m) ext sub toks with
   | .ok out => .ok (charsToBytes out)
   | .error e => .error e
